@@ -85,10 +85,40 @@ EOF_FORMS = ['try: x', 'if a: b', 'if a:\n    b', 'class C:\n    def f(self): pa
              'x = (1,\n 2)', 'x = 1  # c', 'if a:\n    b\n    ', 'def f():\n    return 1\n  ', 'x = 1\\\n', 'x = 1;', 'pass; pass', '@d\ndef f(): pass']
 
 
+_KW = ['from', 'import', 'as', 'in', 'is', 'not', 'and', 'or', 'if', 'else', 'elif', 'for', 'while', 'def', 'class', 'return', 'yield', 'lambda', 'with',
+       'try', 'except', 'finally', 'raise', 'pass', 'del', 'global', 'nonlocal', 'assert', 'async', 'await', 'None', 'True', 'match', 'case', 'type',
+       'print', 'exec', ':', '=', ':=', '->', ',', '.', '...', '(', ')', '[', ']', '{', '}', '*', '**', '@', ';', '!', '$', '?', '1', "'s'", 'x', '\\']
+
+
+def _near_miss(rng, files):
+    """a valid piece of real code with exactly one slip of the kind people make: two statements on one line (line break lost), or one
+    stray keyword / operator at a token boundary - the first error of both parsers must be the same token"""
+    import re
+    base = G.corpus_slice(rng, files, inject=(0, 0)) if rng.random() < .8 else rng.choice(G.RULE_TRIGGERS)
+    lines = G.split_keep(base)
+    if not lines:
+        return base
+    if rng.random() < .5 and len(lines) > 1:
+        k = rng.randrange(len(lines) - 1)
+        lines[k] = lines[k].rstrip('\r\n') + ' '
+        lines[k + 1] = lines[k + 1].lstrip(' \t')
+        return ''.join(lines)
+    k = rng.randrange(len(lines))
+    parts = re.split(r'(\s+|(?<=\w)(?=\W)|(?<=\W)(?=\w))', lines[k])
+    j = rng.randrange(len(parts) + 1)
+    pool = [w for w in re.findall(r'[A-Za-z_]+', base) if w in _KW]
+    tok = rng.choice(pool) if pool and rng.random() < .5 else rng.choice(_KW)
+    parts.insert(j, ' ' + tok + ' ')
+    lines[k] = ''.join(p for p in parts if p is not None)
+    return ''.join(lines)
+
+
 def _gen(rng, files):
     r = rng.random()
     if r < .08:
         return rng.choice(EOF_FORMS)
+    if r > .8:
+        return _near_miss(rng, files)
     if r < .16:
         from ..gen import valid
         s = rng.choice(valid.VALID_SNIPPETS)
